@@ -13,7 +13,7 @@ def analyse(wd):
            'sizes': collections.Counter(), 'traces': set()}
     if not (len(ops) == len(impl) == len(model)):
         res['problems'].append((ops[-1] if ops else '', 'stream-length', 'ops=%d impl=%d model=%d (harness or driver died?)' % (len(ops), len(impl), len(model))))
-    for o, i, m in zip(ops, impl, model):
+    for idx, (o, i, m) in enumerate(zip(ops, impl, model)):
         parts = m.split(' |# ')
         if len(parts) != 4:
             res['problems'].append((o, 'driver-output', m[:300])); continue
@@ -37,6 +37,13 @@ def analyse(wd):
         elif mv.startswith('FAIL'):
             kind, detail = 'model-violates-spec', 'spec clauses violated by the model: %s | model=%s' % (mv[5:], mm[:600])
         if kind:
+            if ' real=1 ' in o.split(' ; ')[0] + ' ':
+                # a batch the kernel delivered to the real Wait loop: what reproduces it is its scenario (the `real seed=…` line
+                # that closes the round), not the batch line replayed on synthetic events
+                scen = next((x for x in ops[idx + 1:] if x.startswith('real ')), None)
+                if scen:
+                    detail = 'in scenario "%s", batch %s: %s' % (scen, o.split(' ; ')[0], detail)
+                    o = scen
             res['problems'].append((o, kind, detail))
     res['samples'] = [o[:400] + '  =>  ' + i[:300] for o, i in list(zip(ops, impl))[:2]]
     return res
